@@ -343,8 +343,9 @@ MANIFEST_ENTRY = {
     "category": "other",
     "text": ("Field faults: 'normal return => valid' postconditions of the three real transaction constructors and TransactionSet.add_entry proved by symbolic "
              "execution (pyvc, z3/cvc5). Structure faults: the row loop of parse_ods executed into a decision table over the helper predicates, table state "
-             "and row counter; each structural fault class is an obligation 'every feasible path raises' plus a cover, discharged by z3; valid rows are "
-             "processed exactly once. Propagation: all except handlers enumerated (re-raise / exit non-zero or on the justified list), no handler in the "
+             "and row counter (the three row-class helpers are pinned down by evaluating the real functions on one representative of each of 16 cell "
+             "value classes); each structural fault class is an obligation 'every feasible path raises' plus a cover, discharged by z3; no path leaves "
+             "the row loop early; valid rows are processed exactly once. Propagation: all except handlers enumerated (re-raise / exit non-zero or on the justified list), no handler in the "
              "asset loop, generators run after all assets, option conflict exits 1. Bounded: every fault class injected at every position of generated inputs "
              "through the real entry points - exit status non-zero, message, no report written."),
     "note": ("Config-file faults rely on configparser/jsonschema and Configuration.__init__ (bounded only). The header heuristic of parse_ods (a bad first data row "
